@@ -623,6 +623,10 @@ func writeTypeConversion(w *formatting.IndentedWriter, typeChange dsl.TypeChange
 		w.Indented(func() {
 			writeTypeConversion(w, tc.InnerChange, sourceName+".value()", targetName, write)
 		})
+		fmt.Fprintf(w, "} else {\n")
+		w.Indented(func() {
+			fmt.Fprintf(w, "%s = {};\n", targetName)
+		})
 		fmt.Fprintf(w, "}\n")
 
 	case *dsl.TypeChangeOptionalToScalar:
@@ -632,6 +636,11 @@ func writeTypeConversion(w *formatting.IndentedWriter, typeChange dsl.TypeChange
 			fmt.Fprintf(w, "if (%s.has_value()) {\n", sourceName)
 			w.Indented(func() {
 				fmt.Fprintf(w, "%s = %s.value();\n", targetName, sourceName)
+			})
+			fmt.Fprintf(w, "} else {\n")
+			w.Indented(func() {
+				// the target may be a caller's object that still holds an earlier value
+				fmt.Fprintf(w, "%s = {};\n", targetName)
 			})
 			fmt.Fprintf(w, "}\n")
 		} else {
